@@ -199,7 +199,7 @@ def parse(out):
         elif w[0] == "Q":
             cur["Q"] = kv(w[1:])
         elif w[0] == "R":
-            cur["R"][int(w[1])] = dict(path_scr=int(w[2]), prev=int(w[3]), alpha=int(w[4]), beta=int(w[5]), post=int(w[6]), ascr=int(w[7]))
+            cur["R"][int(w[1])] = dict(path_scr=int(w[2]), prev=int(w[3]), alpha=int(w[4]), beta=int(w[5]), post=int(w[6]), ascr=int(w[7]), scaled=int(w[8]) if len(w) > 8 else None)
         elif w[0] == "PX":
             cur["PX"].append((unhx(w[2]), int(w[3]), int(w[4])))
         elif w[0] == "PH":
@@ -267,6 +267,9 @@ def driver_block(d, k, with_build=True):
         sil = [tab[v[0]] for v in d["fsgW"].values() if v[3]]
         lines.append(f"b {d['frame']} {tab['<s>']} {tab['</s>']} {sil[0] if sil else 999999} {d['Y']['silpen']} {d['Y']['fillpen']} "
                      + " ".join(str(x) for x in fillers))
+    if not d["null"] and d.get("R") and all(r.get("scaled") is not None for r in d["R"].values()) and len(d["R"]) == len(d["links"]):
+        lines.append("c " + " ".join(str(d["R"][j]["scaled"]) for j in range(len(d["links"]))))
+        lines.append("e " + " ".join(str(j) for j in d["entries"].get(d["G"]["end"], [])))
     lines.append(f"run {k}")
     return lines, tab
 
@@ -298,6 +301,10 @@ def parse_driver(out):
             cur["best"] = None if w[1] == "none" else dict(link=int(w[1]), score=int(w[2]), chain=[int(t) for t in w[3:]])
         elif w[0] == "rem":
             cur["rem"] = [int(t) for t in w[1:]]
+        elif w[0] in ("alpha", "beta"):
+            cur[w[0]] = [int(t) for t in w[1:]]
+        elif w[0] == "norm":
+            cur["norm"] = int(w[1])
         elif w[0] == "p":
             cur["nbest"].append(dict(score=int(w[1]), nodes=[int(t) for t in w[2:]]))
         elif w[0] == "built":
